@@ -418,13 +418,16 @@ class Kernel:
         return out[:n]
 
     # ---- driver ---------------------------------------------------------------------
-    def run(self, parent_fn, priv):
+    def run(self, parent_fn, priv, others=None):
         """run parent_fn as the parent simulated process; returns when every process is done
         or a fatal condition was reached."""
         global KERNEL
         KERNEL = self
         try:
             p = self.spawn(parent_fn, 'parent', 'parent', priv)
+            for j, (fn2, priv2) in enumerate(others or []):
+                # further independent processes started by "the shell" at the same instant (e.g. a second driver)
+                self.spawn(fn2, f'parent{j + 2}', 'parent', priv2)
             self._restore_private(p)
             self.current = p
             p.sem.release()
